@@ -453,7 +453,7 @@ func C07(tier string) {
 		case cr.Status == "ok" && strings.HasPrefix(res.Err, "step-bound:"):
 			sig := "step-bound:" + key
 			if !run.IsKnown(sig) {
-				run.Violation(sig, fmt.Sprintf("%s: %s (bound: 200x what the pinned tree needs; the worker stopped itself): %v", key, res.Err, res.Steps), files)
+				run.Violation(sig, fmt.Sprintf("%s: %s (bound derived from the committed counts of the pinned tree; the worker stopped itself): %v", key, res.Err, res.Steps), files)
 			}
 		case cr.Status == "ok" && res.Done:
 			// bounded progress: logical steps against the committed table of the pinned tree
@@ -466,7 +466,7 @@ func C07(tier string) {
 					if n > limitOf(key, b) {
 						sig := "step-bound:" + key
 						if !run.IsKnown(sig) {
-							run.Violation(sig, fmt.Sprintf("%s: loop %s made %d steps; the pinned tree needs %d on the same program (bound: 200x)", key, site, n, base[site]), files)
+							run.Violation(sig, fmt.Sprintf("%s: loop %s made %d steps; the pinned tree needs %d on the same program", key, site, n, base[site]), files)
 						}
 					}
 				}
